@@ -67,6 +67,9 @@ def growth_sites(body):
 
 
 def run(prog, rep, tier):
+    from .. import fieldinv
+    census.PROG = prog
+    fieldinv.compute(prog)
     roots, scope = scope_of(prog)
     rep.floor('R15.roots', len(roots), 25, 'streaming entry points')
     table = {e['key']: e for e in json.load(open(TBL))['sites']}
